@@ -185,6 +185,11 @@ func c05Get() {
 	if simrt.Chance(1, 3) {
 		diffAt = simrt.DrawRange(0, 6)
 	}
+	nilAt := -1 // position of a nil value (nil is a legal value like any other)
+	if nPuts > 0 && simrt.Chance(1, 4) {
+		nilAt = simrt.Draw(nPuts)
+		simrt.Probe("nil_value_put")
+	}
 	type get struct {
 		ctx        context.Context
 		cancel     context.CancelFunc
@@ -220,7 +225,11 @@ func c05Get() {
 				simrt.Probe("get_failed")
 				continue // the next Get must return the same position
 			}
-			if v != pos {
+			want := interface{}(pos)
+			if pos == nilAt {
+				want = nil
+			}
+			if v != want {
 				simrt.Failf("C05.failed-get-consumed", "Get %d returned %v, expected the value at position %d (a failed Get must consume nothing)", i, v, pos)
 				return
 			}
@@ -243,7 +252,11 @@ func c05Get() {
 					simrt.Stall(d * 5)
 				}
 			}
-			if err := b.Put(context.Background(), i); err != nil {
+			v := interface{}(i)
+			if i == nilAt {
+				v = nil
+			}
+			if err := b.Put(context.Background(), v); err != nil {
 				if !closing {
 					simrt.Failf("C05.put", "Put failed: %v", err)
 				}
